@@ -1,1 +1,833 @@
-(* C14 stub: to be written *)
+(* C14 — proofs: the weighted norm of a state matrix, isometries (T, Phi, P, untruncated S),
+   contractions (E on the deviation, spoiler, diffusion), the signal bound |F0| <= PD. *)
+From Coq Require Import Reals ZArith List Bool Lia Lra Psatz RealField.
+From Coquelicot Require Import Coquelicot.
+From EPG Require Import Scalar State Ops ListLemmas CInst Synth Dft Views WfProof SynthStep
+  Transition Evolution CoefPhys Norms.
+From EPG.Model Require Import Diffusion.
+From EPG Require Import DiffusionProofs Ensemble.
+Import ListNotations.
+Local Open Scope R_scope.
+
+(* ------------------------------------------------------------------ the reals as scalars *)
+Lemma Rlaws : ScalLaws Rops.
+Proof.
+  constructor; simpl; try reflexivity.
+  - exact RTheory.
+  - intros x y. unfold Reqb. destruct (Req_EM_T x y); split; auto; discriminate.
+Qed.
+
+Ltac rnorm := change (K Rops) with R in *; change (@kmul Rops) with Rmult in *;
+  change (@kadd Rops) with Rplus in *; change (@ksub Rops) with Rminus in *;
+  change (@kopp Rops) with Ropp in *; change (@k0 Rops) with 0 in *; change (@k1 Rops) with 1 in *.
+
+(* ------------------------------------------------------------------ finite real sums *)
+Lemma rsum_ext lo n f g :
+  (forall k, (lo <= k < lo + Z.of_nat n)%Z -> f k = g k) -> rsum lo n f = rsum lo n g.
+Proof. exact (sumZ_ext Rops lo n f g). Qed.
+Lemma rsum_add lo n f g : rsum lo n (fun k => f k + g k) = rsum lo n f + rsum lo n g.
+Proof. exact (sumZ_add Rops Rlaws lo n f g). Qed.
+Lemma rsum_scale lo n c f : rsum lo n (fun k => c * f k) = c * rsum lo n f.
+Proof. exact (sumZ_scale Rops Rlaws lo n c f). Qed.
+Lemma rsum_reindex lo n d f : rsum lo n (fun k => f (k - d)%Z) = rsum (lo - d) n f.
+Proof. exact (sumZ_reindex Rops lo n d f). Qed.
+Lemma rsum_widen lo m a n f :
+  (forall k, (k < a)%Z \/ (a + Z.of_nat n <= k)%Z -> f k = 0) ->
+  (lo <= a)%Z -> (a + Z.of_nat n <= lo + Z.of_nat m)%Z -> rsum lo m f = rsum a n f.
+Proof. exact (sumZ_widen Rops Rlaws lo m a n f). Qed.
+Lemma rsum_single lo n f k' :
+  (lo <= k' < lo + Z.of_nat n)%Z -> (forall k, k <> k' -> f k = 0) -> rsum lo n f = f k'.
+Proof. exact (sumZ_single Rops Rlaws lo n f k'). Qed.
+
+Lemma sumn_le n (f g : nat -> R) :
+  (forall i, (i < n)%nat -> f i <= g i) -> sumn Rops n f <= sumn Rops n g.
+Proof.
+  induction n as [|n IH]; intros H; cbn [sumn]; rnorm; [lra|].
+  pose proof (H n (Nat.lt_succ_diag_r n)). assert (sumn Rops n f <= sumn Rops n g) by (apply IH; auto). lra.
+Qed.
+Lemma rsum_le lo n f g :
+  (forall k, (lo <= k < lo + Z.of_nat n)%Z -> f k <= g k) -> rsum lo n f <= rsum lo n g.
+Proof. intros H. apply sumn_le. intros i Hi. apply H. lia. Qed.
+Lemma rsum_nonneg lo n f : (forall k, (lo <= k < lo + Z.of_nat n)%Z -> 0 <= f k) -> 0 <= rsum lo n f.
+Proof.
+  intros H. replace 0 with (rsum lo n (fun _ => 0)).
+  - now apply rsum_le.
+  - apply (sumZ_zero Rops Rlaws). auto.
+Qed.
+
+(* reversal of the summation order *)
+Lemma sumn_first n (f : nat -> R) : sumn Rops (S n) f = f 0%nat + sumn Rops n (fun i => f (S i)).
+Proof.
+  change (S n) with (1 + n)%nat. rewrite (sumn_app Rops Rlaws 1 n f). cbn [sumn]. rnorm.
+  replace (sumn Rops n (fun i => f (1 + i)%nat)) with (sumn Rops n (fun i => f (S i))) by reflexivity. ring.
+Qed.
+Lemma sumn_rev n : forall f : nat -> R, sumn Rops n (fun i => f (n - 1 - i)%nat) = sumn Rops n f.
+Proof.
+  induction n as [|n IH]; intros f; [reflexivity|].
+  rewrite sumn_first. cbn [sumn]. rnorm.
+  rewrite (sumn_ext Rops n _ (fun i => f (n - 1 - i)%nat)) by (intros i _; f_equal; lia).
+  rewrite IH. replace (S n - 1 - 0)%nat with n by lia. ring.
+Qed.
+
+(* ---- sums over the symmetric window [-n, n] ---- *)
+Lemma win_ext n f g : (forall k, (- Z.of_nat n <= k <= Z.of_nat n)%Z -> f k = g k) -> win n f = win n g.
+Proof. intros H. apply rsum_ext. intros k Hk. apply H. lia. Qed.
+Lemma win_add n f g : win n (fun k => f k + g k) = win n f + win n g.
+Proof. apply rsum_add. Qed.
+Lemma win_scale n c f : win n (fun k => c * f k) = c * win n f.
+Proof. apply rsum_scale. Qed.
+Lemma win_le n f g : (forall k, (- Z.of_nat n <= k <= Z.of_nat n)%Z -> f k <= g k) -> win n f <= win n g.
+Proof. intros H. apply rsum_le. intros k Hk. apply H. lia. Qed.
+Lemma win_nonneg n f : (forall k, 0 <= f k) -> 0 <= win n f.
+Proof. intros H. apply rsum_nonneg. auto. Qed.
+Lemma win_delta n c : win n (fun k => if (k =? 0)%Z then c else 0) = c.
+Proof.
+  unfold win. rewrite (rsum_single _ _ _ 0%Z); [reflexivity|lia|].
+  intros k Hk. destruct (Z.eqb_spec k 0); [contradiction|reflexivity].
+Qed.
+Lemma win_term_le n f k' : (forall k, 0 <= f k) -> (- Z.of_nat n <= k' <= Z.of_nat n)%Z -> f k' <= win n f.
+Proof.
+  intros Hf Hk.
+  replace (f k') with (win n (fun k => if (k =? k')%Z then f k' else 0)).
+  - apply win_le. intros k _. destruct (k =? k')%Z eqn:E; [apply Z.eqb_eq in E; subst; lra|apply Hf].
+  - unfold win. rewrite (rsum_single _ _ _ k'); [now rewrite Z.eqb_refl|lia|].
+    intros k Hne. destruct (Z.eqb_spec k k'); [contradiction|reflexivity].
+Qed.
+
+(* k -> -k *)
+Lemma win_reflect n f : win n (fun k => f (- k)%Z) = win n f.
+Proof.
+  unfold win, rsum, sumZ.
+  rewrite <- (sumn_rev (2 * n + 1) (fun i => f (- Z.of_nat n + Z.of_nat i)%Z)).
+  apply (sumn_ext Rops). intros i Hi. f_equal. lia.
+Qed.
+
+(* a family supported in [-n, n], shifted by d, summed over a window that contains the shifted support *)
+Lemma win_shift n n' d f :
+  (forall k, (k < - Z.of_nat n)%Z \/ (Z.of_nat n < k)%Z -> f k = 0) -> (n + Z.abs_nat d <= n')%nat ->
+  win n' (fun k => f (k - d)%Z) = win n f.
+Proof.
+  intros Hf Hn. unfold win. rewrite rsum_reindex.
+  apply rsum_widen; try lia. intros k Hk. apply Hf. lia.
+Qed.
+Lemma win_widen n n' f :
+  (forall k, (k < - Z.of_nat n)%Z \/ (Z.of_nat n < k)%Z -> f k = 0) -> (n <= n')%nat -> win n' f = win n f.
+Proof.
+  intros Hf Hn. unfold win. apply rsum_widen; try lia. intros k Hk. apply Hf. lia.
+Qed.
+
+(* ------------------------------------------------------------------ per-state facts *)
+Lemma cnorm2_nonneg x : 0 <= cnorm2 x.
+Proof. unfold cnorm2. nra. Qed.
+Lemma cnorm2_mult x y : cnorm2 (Cmult x y) = cnorm2 x * cnorm2 y.
+Proof. destruct x, y. unfold cnorm2. simpl. ring. Qed.
+Lemma cnorm2_conj x : cnorm2 (Cconj x) = cnorm2 x.
+Proof. destruct x. unfold cnorm2. simpl. ring. Qed.
+Lemma cnorm2_RtoC a : cnorm2 (RtoC a) = a * a.
+Proof. unfold cnorm2. simpl. ring. Qed.
+Lemma cnorm2_0 : cnorm2 (RtoC 0) = 0.
+Proof. rewrite cnorm2_RtoC. ring. Qed.
+Lemma wnorm2_nonneg v : 0 <= wnorm2 v.
+Proof.
+  unfold wnorm2. pose proof (cnorm2_nonneg (fp v)). pose proof (cnorm2_nonneg (fm v)).
+  pose proof (cnorm2_nonneg (fz v)). lra.
+Qed.
+Lemma wnorm2_t0 : wnorm2 (@t0 Cops) = 0.
+Proof. unfold wnorm2, t0. cbn [fp fm fz]. cnorm. rewrite cnorm2_0. ring. Qed.
+Lemma Cmod_cnorm2 x : Cmod x = sqrt (cnorm2 x).
+Proof. unfold Cmod, cnorm2. f_equal. ring. Qed.
+
+(* ------------------------------------------------------------------ shape bookkeeping *)
+Local Notation get := (get Cops).
+Local Notation gete := (gete Cops).
+Local Notation shaped := (shaped Cops).
+Local Notation wf := (wf Cops).
+
+Lemma norm2_shaped s n : shaped s n -> norm2 s = win n (fun k => wnorm2 (get s k)).
+Proof. intros H. unfold norm2. now rewrite (shaped_nstate Cops s n H). Qed.
+Lemma dev2_shaped s n : shaped s n -> dev2 s = win n (fun k => wnorm2 (dev s k)).
+Proof. intros H. unfold dev2. now rewrite (shaped_nstate Cops s n H). Qed.
+
+Lemma get_zero_out s n k : shaped s n -> (k < - Z.of_nat n)%Z \/ (Z.of_nat n < k)%Z -> get s k = t0.
+Proof. intros Hs Hk. exact (get_supp Cops s n Hs k Hk). Qed.
+
+Lemma norm2_nonneg s : 0 <= norm2 s.
+Proof. apply win_nonneg. intros k. apply wnorm2_nonneg. Qed.
+
+(* norm2 = 1/2 sum|F+|^2 + 1/2 sum|F-|^2 + sum|Z|^2 *)
+Lemma norm2_split s : norm2 s = / 2 * tp2 s + / 2 * tm2 s + zz2 s.
+Proof.
+  unfold norm2, tp2, tm2, zz2, wnorm2.
+  rewrite <- !win_scale, <- !win_add. reflexivity.
+Qed.
+
+(* for well-formed states the two transverse sums agree: F-(k) = conj F+(-k), re-index k -> -k *)
+Lemma tp2_eq_tm2 s : wf s -> tp2 s = tm2 s.
+Proof.
+  intros W. unfold tp2, tm2.
+  rewrite <- (win_reflect _ (fun k => cnorm2 (fp (get s k)))).
+  apply win_ext. intros k _. rewrite (wf_fm Cops s W k). symmetry. apply cnorm2_conj.
+Qed.
+
+(* (a) what utils.get_norm sums equals the physical norm on well-formed states *)
+Theorem norm_code_eq s : wf s -> code_norm2 s = norm2 s.
+Proof.
+  intros W. rewrite norm2_split, (tp2_eq_tm2 s W).
+  unfold code_norm2. rewrite win_add. fold (tm2 s) (zz2 s). lra.
+Qed.
+
+(* ------------------------------------------------------------------ (b) isometries *)
+Lemma nstate_map (f : triple Cops -> triple Cops) s e : nstate (mkSM (map f (st s)) e) = nstate s.
+Proof. unfold nstate. cbn [st]. now rewrite map_length. Qed.
+
+Lemma norm2_matrix_iso m s :
+  (forall v, wnorm2 (mv m v) = wnorm2 v) -> norm2 (apply (OMatrix m None) s) = norm2 s.
+Proof.
+  intros H. unfold norm2. cbn [apply apply_matrix]. rewrite nstate_map.
+  apply win_ext. intros k _. unfold Views.get at 1. cbn [st].
+  rewrite (getZ_map_st Cops s (mv m) k (mv_t0 Cops Claws m)). apply H.
+Qed.
+Lemma norm2_scalar_iso a s :
+  (forall v, wnorm2 (sv a v) = wnorm2 v) -> norm2 (apply (OScalar a None) s) = norm2 s.
+Proof.
+  intros H. unfold norm2. cbn [apply apply_scalar]. rewrite nstate_map.
+  apply win_ext. intros k _. unfold Views.get at 1. cbn [st].
+  rewrite (getZ_map_st Cops s (sv a) k (sv_t0 Cops Claws a)). apply H.
+Qed.
+
+Theorem T_state_isometry alpha phi s : norm2 (apply (op_T alpha phi) s) = norm2 s.
+Proof. apply norm2_matrix_iso. apply T_isometry. Qed.
+Theorem Phi_state_isometry phi s : norm2 (apply (op_Phi phi) s) = norm2 s.
+Proof. apply norm2_matrix_iso. apply Phi_isometry. Qed.
+Theorem P_state_isometry tau g s : norm2 (apply (op_P tau g) s) = norm2 s.
+Proof.
+  unfold op_P. change (snd (P_op tau g)) with (@None (triple Cops)).
+  apply norm2_scalar_iso. apply P_isometry.
+Qed.
+
+(* untruncated shift *)
+Theorem S_isometry d s n : shaped s n -> norm2 (apply (OShift d None) s) = norm2 s.
+Proof.
+  intros Hs. cbn [apply].
+  pose proof (shift_shaped Cops d None s n Hs) as Hs'. cbn [shift_n] in Hs'.
+  rewrite (norm2_shaped _ _ Hs'), (norm2_shaped _ _ Hs).
+  rewrite (win_ext _ _ (fun k => / 2 * cnorm2 (fp (get s (k - d))) + / 2 * cnorm2 (fm (get s (k - - d))) + cnorm2 (fz (get s k)))).
+  2:{ intros k _. rewrite (get_shift_notrunc Cops d None s n k Hs eq_refl). unfold wnorm2. cbn [fp fm fz].
+      replace (k - - d)%Z with (k + d)%Z by lia. reflexivity. }
+  rewrite !win_add, !win_scale.
+  rewrite (win_shift n _ d (fun k => cnorm2 (fp (get s k)))).
+  2:{ intros k Hk. rewrite (get_zero_out s n k Hs Hk). apply cnorm2_0. } 2:lia.
+  rewrite (win_shift n _ (- d) (fun k => cnorm2 (fm (get s k)))).
+  2:{ intros k Hk. rewrite (get_zero_out s n k Hs Hk). apply cnorm2_0. } 2:lia.
+  rewrite (win_widen n _ (fun k => cnorm2 (fz (get s k)))).
+  2:{ intros k Hk. rewrite (get_zero_out s n k Hs Hk). apply cnorm2_0. } 2:lia.
+  unfold wnorm2. rewrite !win_add, !win_scale. reflexivity.
+Qed.
+
+(* ------------------------------------------------------------------ (c) contractions *)
+(* the generated relaxation arrays in closed form *)
+Definition relax_arr (c s e2 e1 : R) : triple Cops :=
+  @mk3 Cops (e2 * c, - (e2 * s)) (e2 * c, e2 * s) (e1, 0).
+Definition relax_arr0 (e1 : R) : triple Cops := @mk3 Cops (0, 0) (0, 0) (1 - e1, 0).
+
+Lemma E_op_form tau T1 T2 g :
+  E_op tau T1 T2 g =
+  (relax_arr (cos (- (tau * (2 * PI * g)))) (sin (- (tau * (2 * PI * g))))
+             (exp (- (tau * (1 / T2)))) (exp (- (tau / T1))),
+   Some (relax_arr0 (exp (- (tau / T1))))).
+Proof. reflexivity. Qed.
+
+Lemma exp_le_mono x y : x <= y -> exp x <= exp y.
+Proof. intros [H| ->]; [left; now apply exp_increasing|right; reflexivity]. Qed.
+
+Lemma e1_range tau T1 : 0 <= tau -> 0 < T1 -> 0 < exp (- (tau / T1)) <= 1.
+Proof.
+  intros Ht H1. split; [apply exp_pos|]. apply exp_neg_le_1.
+  unfold Rdiv. apply Rmult_le_pos; [exact Ht|]. left. now apply Rinv_0_lt_compat.
+Qed.
+Lemma e2_range tau T2 : 0 <= tau -> 0 < T2 -> 0 < exp (- (tau * (1 / T2))) <= 1.
+Proof.
+  intros Ht H2. split; [apply exp_pos|]. apply exp_neg_le_1.
+  apply Rmult_le_pos; [exact Ht|]. unfold Rdiv. rewrite Rmult_1_l. left. now apply Rinv_0_lt_compat.
+Qed.
+(* T2 <= 2 T1  ==>  exp(-tau/T2)^2 <= exp(-tau/T1) *)
+Lemma e2sq_le_e1 tau T1 T2 : 0 <= tau -> 0 < T1 -> 0 < T2 -> T2 <= 2 * T1 ->
+  exp (- (tau * (1 / T2))) * exp (- (tau * (1 / T2))) <= exp (- (tau / T1)).
+Proof.
+  intros Ht H1 H2 H12. rewrite <- exp_plus. apply exp_le_mono.
+  assert (Hi : / T1 <= 2 * / T2).
+  { assert (/ (2 * T1) <= / T2) by (apply Rinv_le_contravar; lra).
+    rewrite Rinv_mult in H. assert (0 < / T1) by now apply Rinv_0_lt_compat. lra. }
+  unfold Rdiv. rewrite Rmult_1_l.
+  assert (tau * / T1 <= tau * (2 * / T2)) by (apply Rmult_le_compat_l; assumption). lra.
+Qed.
+
+Lemma cnorm2_rot c s e2 : c * c + s * s = 1 ->
+  cnorm2 (e2 * c, - (e2 * s)) = e2 * e2 /\ cnorm2 (e2 * c, e2 * s) = e2 * e2.
+Proof.
+  intros H. unfold cnorm2; simpl. split.
+  - replace (e2 * c * (e2 * c) + - (e2 * s) * - (e2 * s)) with (e2 * e2 * (c * c + s * s)) by ring. rewrite H. ring.
+  - replace (e2 * c * (e2 * c) + e2 * s * (e2 * s)) with (e2 * e2 * (c * c + s * s)) by ring. rewrite H. ring.
+Qed.
+
+Lemma wnorm2_sv_relax c s e2 e1 v : c * c + s * s = 1 ->
+  wnorm2 (sv (relax_arr c s e2 e1) v) =
+  / 2 * ((e2 * e2) * cnorm2 (fp v)) + / 2 * ((e2 * e2) * cnorm2 (fm v)) + (e1 * e1) * cnorm2 (fz v).
+Proof.
+  intros H. destruct (cnorm2_rot c s e2 H) as [R1 R2].
+  unfold wnorm2, sv, relax_arr. cbn [fp fm fz]. cnorm.
+  rewrite !cnorm2_mult, R1, R2. f_equal. unfold cnorm2 at 1. simpl. ring.
+Qed.
+
+(* relaxation acts on the deviation from equilibrium by its diagonal factors alone *)
+Lemma relax_dev c s e2 e1 (v e : triple Cops) : fp e = RtoC 0 -> fm e = RtoC 0 ->
+  tsub (tadd (sv (relax_arr c s e2 e1) v) (sv (relax_arr0 e1) e)) e = sv (relax_arr c s e2 e1) (tsub v e).
+Proof.
+  destruct v as [[a b] [c' d] [x y]], e as [ep em [p q]]. cbn [fp fm fz]. intros -> ->.
+  unfold tsub, tadd, sv, relax_arr, relax_arr0. cbn [fp fm fz]. cnorm.
+  f_equal; apply injective_projections; simpl; ring.
+Qed.
+
+Lemma gete_transverse s k : wf s -> fp (gete s k) = RtoC 0 /\ fm (gete s k) = RtoC 0.
+Proof.
+  intros W. rewrite (gete_cases Cops s k W). destruct (k =? 0)%Z; cbn [fp fm t0]; split; reflexivity.
+Qed.
+
+Theorem E_contracts_deviation tau T1 T2 g s : 0 <= tau -> 0 < T1 -> 0 < T2 -> wf s ->
+  dev2 (apply (op_E tau T1 T2 g) s) <= dev2 s.
+Proof.
+  intros Ht H1 H2 W. destruct (wf_shape Cops s W) as [n Hs].
+  unfold op_E. rewrite E_op_form. cbn [fst snd apply].
+  set (a := relax_arr _ _ _ _). set (b := relax_arr0 _).
+  pose proof (scalar_shaped Cops a (Some b) s n Hs) as Hs'.
+  rewrite (dev2_shaped _ _ Hs'), (dev2_shaped _ _ Hs).
+  apply win_le. intros k _. unfold dev.
+  rewrite (get_scalar Cops Claws a (Some b) s n k Hs), gete_scalar. cbn [opt_sv].
+  destruct (gete_transverse s k W) as [E1 E2].
+  unfold a, b. rewrite (relax_dev _ _ _ _ _ _ E1 E2).
+  assert (Hcs : cos (- (tau * (2 * PI * g))) * cos (- (tau * (2 * PI * g))) +
+                sin (- (tau * (2 * PI * g))) * sin (- (tau * (2 * PI * g))) = 1).
+  { pose proof (sin2_cos2 (- (tau * (2 * PI * g)))) as Hsc. unfold Rsqr in Hsc. lra. }
+  rewrite (wnorm2_sv_relax _ _ _ _ _ Hcs). unfold wnorm2.
+  destruct (e1_range tau T1 Ht H1) as [P1 Q1]. destruct (e2_range tau T2 Ht H2) as [P2 Q2].
+  set (e1 := exp (- (tau / T1))) in *. set (e2 := exp (- (tau * (1 / T2)))) in *.
+  set (d := tsub (get s k) (gete s k)).
+  pose proof (cnorm2_nonneg (fp d)) as N1. pose proof (cnorm2_nonneg (fm d)) as N2. pose proof (cnorm2_nonneg (fz d)) as N3.
+  assert (e2 * e2 <= 1) by nra. assert (e1 * e1 <= 1) by nra.
+  assert (e2 * e2 * cnorm2 (fp d) <= cnorm2 (fp d)) by nra.
+  assert (e2 * e2 * cnorm2 (fm d) <= cnorm2 (fm d)) by nra.
+  assert (e1 * e1 * cnorm2 (fz d) <= cnorm2 (fz d)) by nra.
+  lra.
+Qed.
+
+(* spoiler: the transverse part is discarded *)
+Lemma get_spoil_C s k : get (apply OSpoil s) k = @mk3 Cops (RtoC 0) (RtoC 0) (fz (get s k)).
+Proof. exact (get_spoil Cops s k). Qed.
+Lemma nstate_spoil (s : sm Cops) : nstate (apply OSpoil s) = nstate s.
+Proof. cbn [apply apply_spoil]. apply nstate_map. Qed.
+
+Theorem spoiler_contracts s :
+  norm2 (apply OSpoil s) <= norm2 s /\ (wf s -> dev2 (apply OSpoil s) <= dev2 s).
+Proof.
+  split.
+  - unfold norm2. rewrite nstate_spoil. apply win_le. intros k _. rewrite get_spoil_C.
+    unfold wnorm2. cbn [fp fm fz]. rewrite cnorm2_0.
+    pose proof (cnorm2_nonneg (fp (get s k))). pose proof (cnorm2_nonneg (fm (get s k))). lra.
+  - intros W. unfold dev2. rewrite nstate_spoil. apply win_le. intros k _. unfold dev.
+    rewrite get_spoil_C. change (gete (apply OSpoil s) k) with (gete s k).
+    destruct (gete_transverse s k W) as [E1 E2].
+    unfold wnorm2, tsub. cbn [fp fm fz]. rewrite E1, E2. cnorm.
+    replace (Cminus (RtoC 0) (RtoC 0)) with (RtoC 0) by (apply injective_projections; simpl; ring).
+    rewrite cnorm2_0.
+    pose proof (cnorm2_nonneg (Cminus (fp (get s k)) (RtoC 0))).
+    pose proof (cnorm2_nonneg (Cminus (fm (get s k)) (RtoC 0))). lra.
+Qed.
+
+(* diffusion, abstract form: real factors in [0,1] per phase state *)
+Lemma get_atten aT aL s n k : shaped s n ->
+  get (apply_atten aT aL s) k =
+  @mk3 Cops (Cmult (RtoC (aT k)) (fp (get s k)))
+            (Cconj (Cmult (RtoC (aT (- k)%Z)) (fp (get s (- k)%Z))))
+            (Cmult (RtoC (aL k)) (fz (get s k))).
+Proof. intros Hs. exact (get_d_apply Cops Claws _ _ s n k Hs). Qed.
+
+Lemma sq_le_1 a : 0 <= a <= 1 -> 0 <= a * a <= 1.
+Proof. intros [H1 H2]. split; nra. Qed.
+
+Lemma atten_pointwise aT aL s n k : shaped s n -> wf s ->
+  (forall j, 0 <= aT j <= 1) -> (forall j, 0 <= aL j <= 1) ->
+  wnorm2 (get (apply_atten aT aL s) k) <= wnorm2 (get s k).
+Proof.
+  intros Hs W HT HL. rewrite (get_atten aT aL s n k Hs).
+  unfold wnorm2. cbn [fp fm fz].
+  rewrite cnorm2_conj, !cnorm2_mult, !cnorm2_RtoC.
+  rewrite (wf_fm Cops s W k), cnorm2_conj.
+  pose proof (sq_le_1 _ (HT k)). pose proof (sq_le_1 _ (HT (- k)%Z)). pose proof (sq_le_1 _ (HL k)).
+  pose proof (cnorm2_nonneg (fp (get s k))). pose proof (cnorm2_nonneg (fp (get s (- k)%Z))).
+  pose proof (cnorm2_nonneg (fz (get s k))).
+  assert (aT k * aT k * cnorm2 (fp (get s k)) <= cnorm2 (fp (get s k))) by nra.
+  assert (aT (- k)%Z * aT (- k)%Z * cnorm2 (fp (get s (- k)%Z)) <= cnorm2 (fp (get s (- k)%Z))) by nra.
+  assert (aL k * aL k * cnorm2 (fz (get s k)) <= cnorm2 (fz (get s k))) by nra.
+  lra.
+Qed.
+
+Theorem D_contracts aT aL s : wf s ->
+  (forall k, 0 <= aT k <= 1) -> (forall k, 0 <= aL k <= 1) ->
+  norm2 (apply_atten aT aL s) <= norm2 s.
+Proof.
+  intros W HT HL. destruct (wf_shape Cops s W) as [n Hs].
+  pose proof (d_apply_shaped Cops (fun k => RtoC (aT k)) (fun k => RtoC (aL k)) s n Hs) as Hs'.
+  fold (apply_atten aT aL s) in Hs'.
+  rewrite (norm2_shaped _ _ Hs'), (norm2_shaped _ _ Hs).
+  apply win_le. intros k _. now apply (atten_pointwise aT aL s n k).
+Qed.
+
+(* the deviation: the equilibrium sits in Z(0), which diffusion leaves alone (b = 0 at k = 0) *)
+Theorem D_contracts_deviation aT aL s : wf s ->
+  (forall k, 0 <= aT k <= 1) -> (forall k, 0 <= aL k <= 1) -> aL 0%Z = 1 ->
+  dev2 (apply_atten aT aL s) <= dev2 s.
+Proof.
+  intros W HT HL H0. destruct (wf_shape Cops s W) as [n Hs].
+  pose proof (d_apply_shaped Cops (fun k => RtoC (aT k)) (fun k => RtoC (aL k)) s n Hs) as Hs'.
+  fold (apply_atten aT aL s) in Hs'.
+  rewrite (dev2_shaped _ _ Hs'), (dev2_shaped _ _ Hs).
+  apply win_le. intros k _. unfold dev.
+  rewrite (get_atten aT aL s n k Hs). change (gete (apply_atten aT aL s) k) with (gete s k).
+  rewrite (gete_cases Cops s k W).
+  unfold wnorm2, tsub. cbn [fp fm fz].
+  rewrite (wf_fm Cops s W k). change (@kconj Cops) with Cconj.
+  assert (Hm : forall x : C, Cminus x (RtoC 0) = x) by (intros x; apply injective_projections; simpl; ring).
+  destruct (Z.eqb_spec k 0) as [->|Hk]; cbn [fp fm fz t0]; cnorm.
+  - change (- 0)%Z with 0%Z. rewrite H0.
+    replace (Cmult (RtoC 1) (fz (get s 0))) with (fz (get s 0)) by (apply injective_projections; simpl; ring).
+    rewrite !Hm, !cnorm2_conj, !cnorm2_mult, !cnorm2_RtoC.
+    pose proof (sq_le_1 _ (HT 0%Z)). pose proof (cnorm2_nonneg (fp (get s 0))).
+    assert (aT 0%Z * aT 0%Z * cnorm2 (fp (get s 0)) <= cnorm2 (fp (get s 0))) by nra. lra.
+  - rewrite !Hm, !cnorm2_conj, !cnorm2_mult, !cnorm2_RtoC.
+    pose proof (sq_le_1 _ (HT k)). pose proof (sq_le_1 _ (HT (- k)%Z)). pose proof (sq_le_1 _ (HL k)).
+    pose proof (cnorm2_nonneg (fp (get s k))). pose proof (cnorm2_nonneg (fp (get s (- k)%Z))).
+    pose proof (cnorm2_nonneg (fz (get s k))).
+    assert (aT k * aT k * cnorm2 (fp (get s k)) <= cnorm2 (fp (get s k))) by nra.
+    assert (aT (- k)%Z * aT (- k)%Z * cnorm2 (fp (get s (- k)%Z)) <= cnorm2 (fp (get s (- k)%Z))) by nra.
+    assert (aL k * aL k * cnorm2 (fz (get s k)) <= cnorm2 (fz (get s k))) by nra.
+    lra.
+Qed.
+
+(* ------------------------------------------------------------------ (d) the signal bound *)
+Lemma win0 f : win 0 f = f 0%Z.
+Proof. unfold win, rsum, sumZ. cbn. rnorm. ring. Qed.
+
+Lemma norm2_init PD : norm2 (@init Cops (RtoC PD)) = PD * PD.
+Proof.
+  assert (Hs : shaped (@init Cops (RtoC PD)) 0) by (split; reflexivity).
+  rewrite (norm2_shaped _ _ Hs), win0, (get_init Cops). cbn.
+  unfold wnorm2. cbn [fp fm fz]. cnorm. rewrite cnorm2_0, cnorm2_RtoC. ring.
+Qed.
+
+Lemma kreal_RtoC x : kreal Cops (RtoC x).
+Proof. unfold kreal. apply injective_projections; simpl; ring. Qed.
+
+Lemma bounded_init PD : bounded PD (@init Cops (RtoC PD)).
+Proof.
+  split; [|split].
+  - apply (wf_init Cops Claws). apply kreal_RtoC.
+  - rewrite (gete_init Cops). reflexivity.
+  - rewrite norm2_init. lra.
+Qed.
+
+(* operators that keep wf, the equilibrium and do not increase norm2 keep the invariant *)
+Lemma bounded_mono PD s s' :
+  wf s' -> gete s' 0 = gete s 0 -> norm2 s' <= norm2 s -> bounded PD s -> bounded PD s'.
+Proof.
+  intros W' He Hn (W & Hp & Hb). split; [exact W'|split]; [now rewrite He|lra].
+Qed.
+
+Lemma bounded_T PD a p s : bounded PD s -> bounded PD (apply (op_T a p) s).
+Proof.
+  intros B. apply (bounded_mono PD s); [| | |exact B].
+  - apply (wf_matrix Cops Claws); [apply T_wf|exact I|apply B].
+  - reflexivity.
+  - rewrite T_state_isometry. lra.
+Qed.
+Lemma bounded_Phi PD p s : bounded PD s -> bounded PD (apply (op_Phi p) s).
+Proof.
+  intros B. apply (bounded_mono PD s); [| | |exact B].
+  - apply (wf_matrix Cops Claws); [apply Phi_wf|exact I|apply B].
+  - reflexivity.
+  - rewrite Phi_state_isometry. lra.
+Qed.
+Lemma bounded_P PD tau g s : bounded PD s -> bounded PD (apply (op_P tau g) s).
+Proof.
+  intros B. apply (bounded_mono PD s); [| | |exact B].
+  - destruct (P_wf tau g) as [Q1 Q2]. apply (wf_scalar Cops Claws); [exact Q1|exact Q2|apply B].
+  - unfold op_P. cbn [apply]. apply gete_scalar.
+  - rewrite P_state_isometry. lra.
+Qed.
+Lemma bounded_S PD d s : bounded PD s -> bounded PD (apply (OShift d None) s).
+Proof.
+  intros B. destruct B as (W & Hp & Hb). destruct (wf_shape Cops s W) as [n Hs].
+  apply (bounded_mono PD s); [| | |split; [exact W|split; assumption]].
+  - now apply (wf_shift Cops Claws).
+  - apply (only_pd_changes_equilibrium Cops (OShift d None) s W). intros p r; discriminate.
+  - rewrite (S_isometry d s n Hs). lra.
+Qed.
+Lemma bounded_spoil PD s : bounded PD s -> bounded PD (apply OSpoil s).
+Proof.
+  intros B. apply (bounded_mono PD s); [| | |exact B].
+  - apply (wf_spoil Cops Claws). apply B.
+  - reflexivity.
+  - apply spoiler_contracts.
+Qed.
+Lemma bounded_D PD aT aL s :
+  (forall k, 0 <= aT k <= 1) -> (forall k, 0 <= aL k <= 1) -> (forall k, aL (- k)%Z = aL k) ->
+  bounded PD s -> bounded PD (apply_atten aT aL s).
+Proof.
+  intros HT HL Hev B. apply (bounded_mono PD s); [| | |exact B].
+  - apply (wf_d_apply Cops Claws); [|apply B]. intros k. cbn. rewrite Hev.
+    apply injective_projections; simpl; ring.
+  - reflexivity.
+  - apply D_contracts; auto. apply B.
+Qed.
+Lemma bounded_reset PD s : bounded PD s -> bounded PD (apply OReset s).
+Proof.
+  intros (W & Hp & Hb). destruct (wf_shape Cops s W) as [n Hs].
+  assert (Hg : gete (apply OReset s) 0 = gete s 0).
+  { cbn [apply]. rewrite (gete_reset Cops s n 0 Hs). reflexivity. }
+  split; [now apply (wf_reset Cops Claws)|split; [now rewrite Hg|]].
+  cbn [apply]. rewrite (norm2_shaped _ 0%nat (reset_shaped Cops s n Hs)), win0.
+  rewrite (get_reset Cops s n 0 Hs). cbn.
+  rewrite (gete_cases Cops s 0 W). cbn. rewrite Hp.
+  unfold wnorm2. cbn [fp fm fz]. cnorm. rewrite cnorm2_0, cnorm2_RtoC. lra.
+Qed.
+
+(* relaxation: one state *)
+Lemma wnorm2_relax_step c s e2 e1 (v : triple Cops) p : c * c + s * s = 1 ->
+  wnorm2 (tadd (sv (relax_arr c s e2 e1) v) (sv (relax_arr0 e1) (@mk3 Cops (RtoC 0) (RtoC 0) (RtoC p)))) =
+  / 2 * ((e2 * e2) * cnorm2 (fp v)) + / 2 * ((e2 * e2) * cnorm2 (fm v)) +
+  ((e1 * fst (fz v) + (1 - e1) * p) * (e1 * fst (fz v) + (1 - e1) * p) + (e1 * snd (fz v)) * (e1 * snd (fz v))).
+Proof.
+  intros H. destruct (cnorm2_rot c s e2 H) as [R1 R2].
+  unfold wnorm2, tadd, sv, relax_arr, relax_arr0. cbn [fp fm fz]. cnorm.
+  assert (Hz : forall x : C, Cplus x (Cmult (0, 0) (RtoC 0)) = x) by (intros x; apply injective_projections; simpl; ring).
+  rewrite !Hz, !cnorm2_mult, R1, R2. f_equal.
+  destruct (fz v) as [z y]. unfold cnorm2. simpl. ring.
+Qed.
+
+Lemma relax_pointwise c s e2 e1 (v : triple Cops) p : c * c + s * s = 1 ->
+  0 <= e1 <= 1 -> e2 * e2 <= e1 ->
+  wnorm2 (tadd (sv (relax_arr c s e2 e1) v) (sv (relax_arr0 e1) (@mk3 Cops (RtoC 0) (RtoC 0) (RtoC p)))) <=
+  e1 * wnorm2 v +
+  ((e1 * fst (fz v) + (1 - e1) * p) * (e1 * fst (fz v) + (1 - e1) * p) - e1 * (fst (fz v) * fst (fz v))).
+Proof.
+  intros H He1 He2. rewrite (wnorm2_relax_step c s e2 e1 v p H).
+  unfold wnorm2. pose proof (cnorm2_nonneg (fp v)) as N1. pose proof (cnorm2_nonneg (fm v)) as N2.
+  assert (e2 * e2 * cnorm2 (fp v) <= e1 * cnorm2 (fp v)) by nra.
+  assert (e2 * e2 * cnorm2 (fm v) <= e1 * cnorm2 (fm v)) by nra.
+  set (z := fst (fz v)). set (y := snd (fz v)).
+  assert (Hzz : cnorm2 (fz v) = z * z + y * y) by reflexivity. rewrite Hzz.
+  assert (0 <= e1 * (1 - e1) * (y * y)) by (apply Rmult_le_pos; nra).
+  assert (e1 * y * (e1 * y) <= e1 * (y * y)) by nra.
+  generalize dependent (cnorm2 (fp v)). generalize dependent (cnorm2 (fm v)). intros. nra.
+Qed.
+
+(* norm2 after E <= e1 * norm2 + [(e1 z0 + (1 - e1) PD)^2 - e1 z0^2],  z0 = Re Z(0) *)
+Lemma E_norm2_bound tau T1 T2 g PD s : 0 <= tau -> 0 < T1 -> 0 < T2 -> T2 <= 2 * T1 ->
+  wf s -> fz (gete s 0) = RtoC PD ->
+  let e1 := exp (- (tau / T1)) in let z0 := fst (fz (get s 0)) in
+  norm2 (apply (op_E tau T1 T2 g) s) <=
+  e1 * norm2 s + ((e1 * z0 + (1 - e1) * PD) * (e1 * z0 + (1 - e1) * PD) - e1 * (z0 * z0)).
+Proof.
+  intros Ht H1 H2 H12 W Hp e1 z0. destruct (wf_shape Cops s W) as [n Hs].
+  unfold op_E. rewrite E_op_form. cbn [fst snd apply]. fold e1.
+  set (a := relax_arr _ _ _ _). set (b := relax_arr0 _).
+  pose proof (scalar_shaped Cops a (Some b) s n Hs) as Hs'.
+  rewrite (norm2_shaped _ _ Hs'), (norm2_shaped _ _ Hs).
+  set (X := (e1 * z0 + (1 - e1) * PD) * (e1 * z0 + (1 - e1) * PD) - e1 * (z0 * z0)).
+  rewrite <- (win_delta n X), <- win_scale, <- win_add.
+  apply win_le. intros k _.
+  rewrite (get_scalar Cops Claws a (Some b) s n k Hs). cbn [opt_sv].
+  rewrite (gete_cases Cops s k W), Hp.
+  assert (Hcs : cos (- (tau * (2 * PI * g))) * cos (- (tau * (2 * PI * g))) +
+                sin (- (tau * (2 * PI * g))) * sin (- (tau * (2 * PI * g))) = 1).
+  { pose proof (sin2_cos2 (- (tau * (2 * PI * g)))) as Hsc. unfold Rsqr in Hsc. lra. }
+  destruct (e1_range tau T1 Ht H1) as [P1 Q1]. fold e1 in P1, Q1.
+  pose proof (e2sq_le_e1 tau T1 T2 Ht H1 H2 H12) as He2. fold e1 in He2.
+  assert (He1 : 0 <= e1 <= 1) by lra.
+  destruct (Z.eqb_spec k 0) as [->|Hk].
+  - unfold a, b. cnorm. apply (relax_pointwise _ _ _ e1 (get s 0) PD Hcs He1 He2).
+  - unfold a, b. change (@t0 Cops) with (@mk3 Cops (RtoC 0) (RtoC 0) (RtoC 0)).
+    pose proof (relax_pointwise _ _ _ e1 (get s k) 0 Hcs He1 He2) as Hpw.
+    eapply Rle_trans; [exact Hpw|].
+    set (z := fst (fz (get s k))). assert (e1 * z * (e1 * z) <= e1 * (z * z)) by nra. nra.
+Qed.
+
+Lemma E_bound_arith e1 N P z : 0 <= e1 <= 1 -> N <= P * P ->
+  e1 * N + ((e1 * z + (1 - e1) * P) * (e1 * z + (1 - e1) * P) - e1 * (z * z)) <= P * P.
+Proof.
+  intros He HN.
+  assert (0 <= e1 * (P * P - N)) by (apply Rmult_le_pos; lra).
+  assert (0 <= (e1 * (1 - e1)) * ((P - z) * (P - z))) by (apply Rmult_le_pos; [apply Rmult_le_pos; lra|apply Rle_0_sqr]).
+  nra.
+Qed.
+
+Lemma bounded_E PD tau T1 T2 g s : 0 <= tau -> 0 < T1 -> 0 < T2 -> T2 <= 2 * T1 ->
+  bounded PD s -> bounded PD (apply (op_E tau T1 T2 g) s).
+Proof.
+  intros Ht H1 H2 H12 (W & Hp & Hb).
+  split; [|split].
+  - destruct (E_wf tau T1 T2 g) as [Q1 Q2]. now apply (wf_scalar Cops Claws).
+  - unfold op_E. cbn [apply]. now rewrite gete_scalar.
+  - eapply Rle_trans; [exact (E_norm2_bound tau T1 T2 g PD s Ht H1 H2 H12 W Hp)|].
+    cbv zeta. destruct (e1_range tau T1 Ht H1). apply E_bound_arith; [lra|exact Hb].
+Qed.
+
+Theorem bounded_step PD o s : rvalid o -> bounded PD s -> bounded PD (rapply o s).
+Proof.
+  intros Hv B. destruct o; cbn [rapply rvalid] in *.
+  - now apply bounded_T.
+  - now apply bounded_Phi.
+  - now apply bounded_P.
+  - destruct Hv as (A1 & A2 & A3 & A4). now apply bounded_E.
+  - now apply bounded_S.
+  - now apply bounded_spoil.
+  - now apply bounded_reset.
+  - exact B.
+  - destruct Hv as (A1 & A2 & A3). now apply bounded_D.
+Qed.
+
+(* every program of T / Phi / P / E (T2 <= 2 T1) / untruncated S / SPOILER / RESET / Wait / D *)
+Theorem signal_le_PD_run PD ops s : List.Forall rvalid ops -> bounded PD s -> bounded PD (rrun ops s).
+Proof.
+  revert s. induction ops as [|o ops IH]; intros s Hv B; [exact B|].
+  inversion Hv as [|? ? Ho Hr]; subst. cbn [rrun fold_left]. apply IH; auto. now apply bounded_step.
+Qed.
+
+(* |F0|^2 <= norm2 on well-formed states *)
+Theorem F0_le_norm s : wf s -> cnorm2 (F0 Cops s) <= norm2 s.
+Proof.
+  intros W. destruct (wf_shape Cops s W) as [n Hs]. rewrite (norm2_shaped _ _ Hs).
+  apply Rle_trans with (wnorm2 (get s 0)).
+  - unfold wnorm2, F0. pose proof (wf_fm Cops s W 0) as H. change (- 0)%Z with 0%Z in H.
+    rewrite H. change (@kconj Cops) with Cconj. rewrite cnorm2_conj.
+    pose proof (cnorm2_nonneg (fz (get s 0))). lra.
+  - apply (win_term_le n (fun k => wnorm2 (get s k)) 0%Z); [intros; apply wnorm2_nonneg|lia].
+Qed.
+
+Theorem signal_le_PD PD ops : 0 <= PD -> List.Forall rvalid ops ->
+  Cmod (F0 Cops (rrun ops (@init Cops (RtoC PD)))) <= PD.
+Proof.
+  intros HP Hv.
+  destruct (signal_le_PD_run PD ops _ Hv (bounded_init PD)) as (W & _ & Hb).
+  pose proof (F0_le_norm _ W) as HF.
+  rewrite Cmod_cnorm2. apply Rle_trans with (sqrt (PD * PD)).
+  - apply sqrt_le_1_alt. lra.
+  - rewrite (sqrt_square PD HP). lra.
+Qed.
+
+(* ------------------------------------------------------------------ link of the abstract D to the generated formulas *)
+(* 1-D state matrix, scalar diffusivity D >= 0, duration tau >= 0: sm.k = k * kv; longitudinal factor
+   exp(-bL D) with bL = bmat_const(k kv); transverse factor exp(-bT D) with bT = bmat over the ramp
+   (k kv - sh) -> k kv  (sh = D.k * kvalue, 0 when D.k is None).  These are the GENERATED formulas of Gen/Diffusion.v. *)
+Definition diff1d_aT (tau D kv sh : R) (k : Z) : R :=
+  Gen.Diffusion.att_iso1 (Gen.Diffusion.bmat tau (IZR k * kv - sh) (IZR k * kv - sh) (IZR k * kv) (IZR k * kv)) D.
+Definition diff1d_aL (tau D kv : R) (k : Z) : R :=
+  Gen.Diffusion.att_iso1 (Gen.Diffusion.bmat_const tau (IZR k * kv) (IZR k * kv)) D.
+
+Theorem diff1d_valid tau D kv sh : 0 <= tau -> 0 <= D ->
+  rvalid (RD (diff1d_aT tau D kv sh) (diff1d_aL tau D kv)) /\ diff1d_aL tau D kv 0%Z = 1.
+Proof.
+  intros Ht HD. split; [split; [|split]|].
+  - intros k. unfold diff1d_aT. split; [left; apply exp_pos|].
+    destruct (att_le_1_1d tau (IZR k * kv - sh) (IZR k * kv) D Ht HD) as (_ & H & _). exact H.
+  - intros k. unfold diff1d_aL. split; [left; apply exp_pos|].
+    destruct (att_le_1_1d tau (IZR k * kv) (IZR k * kv) D Ht HD) as (_ & _ & H).
+    destruct (iso_equals_tensor D) as (E & _). rewrite E. exact H.
+  - intros k. unfold diff1d_aL. rewrite opp_IZR.
+    replace (- IZR k * kv) with (- (IZR k * kv)) by ring.
+    destruct (bmatrix_even tau (IZR k * kv) (IZR k * kv) 0 0) as [_ E]. now rewrite E.
+  - unfold diff1d_aL. replace (IZR 0 * kv) with 0 by ring.
+    destruct (k0_unattenuated tau) as (_ & _ & E & _). apply E.
+Qed.
+
+(* ------------------------------------------------------------------ (e) Parseval: the norm is the RMS magnetisation *)
+Section Parseval.
+Variable S : ScalOps.
+Hypothesis L : ScalLaws S.
+Add Ring Kr : (k_ring S L).
+Variables w wi : S.
+Hypothesis wwi : (w * wi)%K = k1.
+Hypothesis wconj : kconj w = wi.                 (* w on the unit circle *)
+Notation wpow := (zpow S w wi).
+Variable N : nat.
+Hypothesis principal : forall j, (j <> 0)%Z -> (- Z.of_nat N < j < Z.of_nat N)%Z ->
+  sumn S N (fun m => wpow (j * Z.of_nat m)%Z) = k0.
+
+Lemma conj_kpow x n : kconj (kpow S x n) = kpow S (kconj x) n.
+Proof.
+  induction n as [|n IH]; simpl; [apply (conj_1 S L)|].
+  now rewrite (conj_mul S L), IH.
+Qed.
+Lemma wiconj : kconj wi = w.
+Proof. rewrite <- wconj. apply (conj_invol S L). Qed.
+Lemma conj_wpow m : kconj (wpow m) = wpow (- m)%Z.
+Proof.
+  destruct m; simpl.
+  - apply (conj_1 S L).
+  - now rewrite conj_kpow, wconj.
+  - now rewrite conj_kpow, wiconj.
+Qed.
+Lemma conj_sumn n (f : nat -> S) : kconj (sumn S n f) = sumn S n (fun i => kconj (f i)).
+Proof.
+  induction n as [|n IH]; simpl; [apply (conj_0 S L)|].
+  now rewrite (conj_add S L), IH.
+Qed.
+
+(* magnetisation component of isochromat m *)
+Definition Gm (n : nat) (g : Z -> S) (m : nat) : S :=
+  syn S (wpow (Z.of_nat m)) (wpow (- Z.of_nat m)) n g.
+
+Lemma conj_Gm n g m :
+  kconj (Gm n g m) =
+  sumn S (2 * n + 1) (fun i => (wpow (- (Z.of_nat m * (- Z.of_nat n + Z.of_nat i))) *
+                                 kconj (g (- Z.of_nat n + Z.of_nat i)%Z))%K).
+Proof.
+  unfold Gm, syn, sumZ. rewrite conj_sumn. apply (sumn_ext S). intros i _.
+  rewrite (conj_mul S L), (zpow_mul S L w wi wwi), conj_wpow. reflexivity.
+Qed.
+
+Theorem parseval_gen n g : supp S n g -> (2 * n < N)%nat ->
+  sumn S N (fun m => (Gm n g m * kconj (Gm n g m))%K) =
+  (kofnat S N * sumZ S (- Z.of_nat n) (2 * n + 1) (fun k => (g k * kconj (g k))%K))%K.
+Proof.
+  intros Hg HN. symmetry.
+  rewrite <- (sumZ_scale S L). unfold sumZ.
+  rewrite (sumn_ext S (2 * n + 1) _ (fun i => sumn S N (fun m =>
+     (Gm n g m * (wpow (- (Z.of_nat m * (- Z.of_nat n + Z.of_nat i))) * kconj (g (- Z.of_nat n + Z.of_nat i)%Z)))%K))).
+  2:{ intros i Hi. set (k := (- Z.of_nat n + Z.of_nat i)%Z).
+      transitivity ((kofnat S N * g k) * kconj (g k))%K; [ring|].
+      rewrite <- (dft_inversion S L w wi wwi N principal n g k Hg HN) by (unfold k; lia).
+      transitivity (kconj (g k) * sumn S N (fun m => (wpow (- (Z.of_nat m * k)) * Gm n g m)%K))%K; [unfold Gm; ring|].
+      rewrite <- (sumn_scale S L). apply (sumn_ext S). intros m _. ring. }
+  rewrite (sumn_swap S L).
+  apply (sumn_ext S). intros m Hm. rewrite (sumn_scale S L), conj_Gm. reflexivity.
+Qed.
+
+End Parseval.
+
+(* ---- at K = C ---- *)
+Lemma Cmult_conj x : Cmult x (Cconj x) = RtoC (cnorm2 x).
+Proof. destruct x. unfold cnorm2. apply injective_projections; simpl; ring. Qed.
+Lemma sumn_RtoC n (f : nat -> R) : sumn Cops n (fun i => RtoC (f i)) = RtoC (sumn Rops n f).
+Proof.
+  induction n as [|n IH]; cbn [sumn]; [reflexivity|].
+  rewrite IH. cnorm. rnorm. apply injective_projections; simpl; ring.
+Qed.
+Lemma sumn_const1 n : sumn Rops n (fun _ => 1) = INR n.
+Proof.
+  induction n as [|n IH]; [reflexivity|]. cbn [sumn]. rewrite IH, S_INR. rnorm. ring.
+Qed.
+Lemma kofnat_C n : kofnat Cops n = RtoC (INR n).
+Proof. unfold kofnat. change (@k1 Cops) with (RtoC 1). now rewrite sumn_RtoC, sumn_const1. Qed.
+Lemma sumn_R_add n f g : sumn Rops n (fun i => f i + g i) = sumn Rops n f + sumn Rops n g.
+Proof. exact (sumn_add Rops Rlaws n f g). Qed.
+Lemma sumn_R_scale n c f : sumn Rops n (fun i => c * f i) = c * sumn Rops n f.
+Proof. exact (sumn_scale Rops Rlaws n c f). Qed.
+
+Section ParsevalC.
+Variables w wi : C.
+Hypothesis wwi : Cmult w wi = RtoC 1.
+Hypothesis wconj : Cconj w = wi.
+Variable N : nat.
+Hypothesis principal : forall j, (j <> 0)%Z -> (- Z.of_nat N < j < Z.of_nat N)%Z ->
+  sumn Cops N (fun m => zpow Cops w wi (j * Z.of_nat m)%Z) = @k0 Cops.
+
+(* one component: sum over the ensemble of |M_c|^2 = N * sum over the states of |c(k)|^2 *)
+Lemma parseval_C n (g : Z -> C) : supp Cops n g -> (2 * n < N)%nat ->
+  sumn Rops N (fun m => cnorm2 (Gm Cops w wi n g m)) = INR N * win n (fun k => cnorm2 (g k)).
+Proof.
+  intros Hg HN.
+  pose proof (parseval_gen Cops Claws w wi wwi wconj N principal n g Hg HN) as P.
+  rewrite kofnat_C in P. cnorm. change (@kconj Cops) with Cconj in P.
+  rewrite (sumn_ext Cops N _ (fun m => RtoC (cnorm2 (Gm Cops w wi n g m)))) in P by (intros; apply Cmult_conj).
+  rewrite sumn_RtoC in P.
+  unfold sumZ in P.
+  rewrite (sumn_ext Cops (2 * n + 1) _ (fun i => RtoC (cnorm2 (g (- Z.of_nat n + Z.of_nat i)%Z)))) in P by (intros; apply Cmult_conj).
+  rewrite sumn_RtoC in P. rewrite <- RtoC_mult in P.
+  apply (f_equal fst) in P. exact P.
+Qed.
+
+(* (e) the squared norm is the ensemble mean of the squared weighted length of the magnetisation
+   M(w^m) = sum_k w^(m k) state(k) of the N isochromats *)
+Theorem norm_is_rms (s : sm Cops) n : shaped s n -> (2 * n < N)%nat ->
+  INR N * norm2 s =
+  sumn Rops N (fun m => wnorm2 (M Cops (zpow Cops w wi (Z.of_nat m)) (zpow Cops w wi (- Z.of_nat m)) s)).
+Proof.
+  intros Hs HN. unfold M. rewrite (shaped_nstate Cops s n Hs).
+  assert (Hsupp : forall c : triple Cops -> C, c t0 = RtoC 0 -> supp Cops n (fun k => c (get s k))).
+  { intros c Hc. exact (suppT_comp Cops n (get s) c Hc (get_supp Cops s n Hs)). }
+  rewrite (sumn_ext Rops N _ (fun m => / 2 * cnorm2 (Gm Cops w wi n (fun k => fp (get s k)) m) +
+                                       / 2 * cnorm2 (Gm Cops w wi n (fun k => fm (get s k)) m) +
+                                       cnorm2 (Gm Cops w wi n (fun k => fz (get s k)) m))) by reflexivity.
+  rewrite !sumn_R_add, !sumn_R_scale.
+  rewrite !parseval_C by (auto; apply Hsupp; reflexivity).
+  rewrite (norm2_shaped s n Hs). unfold wnorm2. rewrite !win_add, !win_scale. ring.
+Qed.
+
+End ParsevalC.
+
+(* the ensemble exists: w = exp(2 pi i / N) *)
+Theorem norm_is_rms_omega N (s : sm Cops) n : shaped s n -> (2 * n < N)%nat ->
+  norm2 s = / INR N *
+  sumn Rops N (fun m => wnorm2 (M Cops (zpow Cops (omega N) (omega_inv N) (Z.of_nat m))
+                                      (zpow Cops (omega N) (omega_inv N) (- Z.of_nat m)) s)).
+Proof.
+  intros Hs HN. assert (HNpos : (0 < N)%nat) by lia.
+  rewrite <- (norm_is_rms (omega N) (omega_inv N) (omega_inv_ok N) (cis_conj _) N (omega_principal N HNpos) s n Hs HN).
+  field. apply Rgt_not_eq, lt_0_INR, HNpos.
+Qed.
+
+(* weighted length of (M+, M-, Mz) = squared length of the real magnetisation vector *)
+Lemma wnorm2_of_xyz x y z : wnorm2 (of_xyz (x, y, z)) = x * x + y * y + z * z.
+Proof. unfold wnorm2, of_xyz, cnorm2. cbn [fp fm fz fst snd]. field. Qed.
+
+(* in terms of the N independently simulated isochromats of C01 (Proofs/Ensemble.v): for every program of
+   valid operators without truncation, the squared norm of the final state matrix is the ensemble mean of
+   the squared (weighted) magnetisation length *)
+Theorem norm_is_rms_of_isochromats N (ops : list (op Cops)) (s0 : sm Cops) :
+  wf s0 -> List.Forall (wf_op Cops) ops -> no_trunc_run Cops ops s0 ->
+  (2 * nstate (run ops s0) < N)%nat ->
+  norm2 (run ops s0) =
+  / INR N * sumn Rops N (fun m => wnorm2 (Ensemble.iso Cops (omega N) (omega_inv N) m ops s0)).
+Proof.
+  intros W Ho Hn HN.
+  destruct (wf_shape Cops _ (wf_run Cops Claws ops s0 Ho W)) as [n Hs].
+  rewrite (shaped_nstate Cops _ n Hs) in HN.
+  rewrite (norm_is_rms_omega N _ n Hs HN). f_equal.
+  apply (sumn_ext Rops). intros m _.
+  now rewrite (Ensemble.iso_is_M Cops Claws (omega N) (omega_inv N) (omega_inv_ok N) m ops s0 W Ho Hn).
+Qed.
+
+(* ------------------------------------------------------------------ utils.get_norm on the stored array *)
+Lemma sumn_fold (S : ScalOps) (L : ScalLaws S) (h : triple S -> S) (l : list (triple S)) :
+  sumn S (length l) (fun i => h (nth i l t0)) = fold_right (fun x acc => kadd (h x) acc) k0 l.
+Proof.
+  induction l as [|x l IH]; [reflexivity|].
+  cbn [length fold_right]. change (Datatypes.S (length l)) with (1 + length l)%nat.
+  rewrite (sumn_app S L 1 (length l)). cbn [sumn nth].
+  rewrite <- IH.
+  replace (sumn S (length l) (fun i => h (nth (1 + i) (x :: l) t0))) with (sumn S (length l) (fun i => h (nth i l t0))) by reflexivity.
+  pose proof (k_ring S L) as Rr. rewrite (Radd_0_l Rr). reflexivity.
+Qed.
+
+(* code_norm2, defined on the function view, is the sum utils.get_norm takes over the stored rows *)
+Theorem code_norm2_list (s : sm Cops) n : shaped s n -> RtoC (code_norm2 s) = @list_norm2 Cops (st s).
+Proof.
+  intros Hs. destruct Hs as [H1 H2]. unfold list_norm2.
+  rewrite <- (sumn_fold Cops Claws (@sq2 Cops) (st s)).
+  unfold code_norm2. rewrite (shaped_nstate Cops s n (conj H1 H2)). unfold win, rsum, sumZ.
+  rewrite <- sumn_RtoC. rewrite H1. apply (sumn_ext Cops). intros i Hi.
+  unfold Views.get. rewrite (getZ_odd t0 (st s) n _ H1).
+  replace (- Z.of_nat n + Z.of_nat i + Z.of_nat n)%Z with (Z.of_nat i) by lia.
+  rewrite nthZ_nat. unfold sq2. cnorm. change (@kconj Cops) with Cconj.
+  rewrite !Cmult_conj. apply injective_projections; simpl; ring.
+Qed.
